@@ -21,6 +21,7 @@ def nspecOfJson (j : Json) : R NSpec := do
   | "poly" => do
       let ts ← termsOfJson (← fld j "terms")
       pure (.fn (polyEval ts))
+  | "field" => do pure (.field (← fldOfJson (← fld j "field")))
   | _ => throw s!"unknown norm spec kind {k}"
 
 def optNspec (j : Json) (k : String) : R (Option NSpec) :=
@@ -57,13 +58,16 @@ def snapJ (atol : Rat) (f : Fld) : Json :=
   Json.mkObj [("field", fldToJson f), ("norm", fldToJson (norm sqrtQ f)),
     ("orientation", fldToJson (orientation sqrtQ atol f))]
 
-def stepOf (atol : Rat) (f : Fld) (j : Json) : R (M Fld) := do
+def stepOfJson (j : Json) : R Step := do
   let k ← strOfJson (← fld j "k")
   match k with
-  | "set_norm" => do pure (setNorm sqrtQ f (← optNspec j "spec"))
-  | "update" => do pure (updateValues f (← vspecOfJson (← fld j "value")))
-  | "set_valid" => do pure (setValid sqrtQ atol f (← validOfJson (← fld j "spec")))
+  | "set_norm" => do pure (.setNorm (← optNspec j "spec"))
+  | "update" => do pure (.update (← vspecOfJson (← fld j "value")))
+  | "set_valid" => do pure (.setValid (← validOfJson (← fld j "spec")))
   | _ => throw s!"unknown step {k}"
+
+def stepOf (atol : Rat) (f : Fld) (j : Json) : R (M Fld) := do
+  pure (step sqrtQ atol f (← stepOfJson j))
 
 /-- run the steps; the list ends at the first step that raises -/
 def runSteps (atol : Rat) : Fld → List Json → R (List Json)
@@ -87,6 +91,19 @@ def c15 (op : String) (j : Json) : Option (R Json) :=
   | "sqrt" => some do
       let x ← ratOfJson (← fld j "x")
       pure (Json.mkObj [("ok", ratToJson (sqrtQ x))])
+  | "fl64" => some do
+      let x ← ratOfJson (← fld j "x")
+      pure (Json.mkObj [("ok", Json.mkObj [("fl", ratToJson (fl64 x)), ("sqrt", ratToJson (sqrt64 x))])])
+  | "fl_cells" => some do
+      -- the kernel with one binary64 rounding after every operation, per cell
+      let cells ← listOf (listOf ratOfJson) (← fld j "cells")
+      let targets ← rats j "targets"
+      let atol ← ratOfJson (← fld j "atol")
+      let out := (cells.zip targets).map fun (v, t) =>
+        Json.mkObj [("norm", ratToJson (flNormCell fl64 sqrt64 v)),
+          ("set", ratsJ (flSetCell fl64 sqrt64 v t)),
+          ("orient", ratsJ (flOrientCell fl64 sqrt64 atol v))]
+      pure (Json.mkObj [("ok", Json.arr out.toArray)])
   | "field_prog" => some do
       -- start from a stored field (taken as state), run steps
       let f ← fldOfJson (← fld j "field")
